@@ -159,47 +159,73 @@ def r2_apply_does_not_write_template(ctx, rid):
 
 
 def r3_array_values_by_position(ctx, rid):
-    """`val[i] if hasattr(val, 'shape') and sum(val.shape) == N else val` with i = enumerate counter of the list whose length is N."""
+    """`val[i] if hasattr(val, 'shape') and sum(val.shape) == N else val` with i = position counter of the loop over the list whose
+    length is N.  Decided on update_var/apply with their private helpers spliced in (the selection may live in a helper); the
+    selection is recognised as a conditional expression or as an if/else assigning the same local."""
+    from engine.inline import inlined
+    from engine.util import normalise
     n = 0
     for q in ("CircuitTemplate.update_var", "CircuitTemplate.apply"):
-        f = ctx.repo.get_func(FC, q)
+        f0 = ctx.repo.get_func(FC, q)
+        f = inlined(ctx, f0)
+        cands = []      # (anchor node, test, indexed value, plain value)
         for e in walk_shallow(f.node):
-            if not (isinstance(e, ast.IfExp) and isinstance(e.body, ast.Subscript) and isinstance(e.body.slice, ast.Name)
-                    and ast.unparse(e.body.value) == ast.unparse(e.orelse)):
+            if isinstance(e, ast.IfExp):
+                cands.append((e, e.test, e.body, e.orelse))
+            elif isinstance(e, ast.If) and len(e.body) == 1 and len(e.orelse) == 1 and all(
+                    isinstance(x, ast.Assign) and len(x.targets) == 1 and isinstance(x.targets[0], ast.Name) for x in (e.body[0], e.orelse[0])) \
+                    and e.body[0].targets[0].id == e.orelse[0].targets[0].id:
+                cands.append((e, e.test, e.body[0].value, e.orelse[0].value))
+        for anchor, test, sel, plain in cands:
+            neg = False
+            if not isinstance(sel, ast.Subscript):
+                sel, plain, neg = plain, sel, True
+            if not (isinstance(sel, ast.Subscript) and ast.unparse(normalise(ctx, f, sel.value)) == ast.unparse(normalise(ctx, f, plain))):
+                continue
+            if not any(isinstance(c, ast.Call) and call_name(c) == "hasattr" for c in ast.walk(test)):
                 continue
             n += 1
-            idx = e.body.slice.id
-            # the enclosing loop that binds idx
+            label = f"per-node value selection #{n}"
+            idx_e = sel.slice
+            if not isinstance(idx_e, ast.Name):
+                ctx.violation(rid, f0, anchor, f"per-node value is indexed by `{ast.unparse(idx_e)}`, not by the position counter of the resolved node list",
+                              label=label)
+                continue
+            idx = idx_e.id
             loop = None
-            for a in _anc(e):
+            for a in _anc(anchor):
                 if isinstance(a, ast.For) and any(isinstance(x, ast.Name) and x.id == idx for x in ast.walk(a.target)):
                     loop = a
                     break
-            if loop is None or not (isinstance(loop.iter, ast.Call) and call_name(loop.iter) == "enumerate" and loop.iter.args
-                                    and isinstance(loop.iter.args[0], ast.Name) and isinstance(loop.target, ast.Tuple)
-                                    and isinstance(loop.target.elts[0], ast.Name) and loop.target.elts[0].id == idx):
-                ctx.violation(rid, f, e, f"per-node value is indexed by `{idx}`, which is not the enumerate counter of the resolved node list")
+            lst = None
+            if loop is not None and isinstance(loop.iter, ast.Call) and call_name(loop.iter) == "enumerate" and loop.iter.args \
+                    and isinstance(loop.target, ast.Tuple) and isinstance(loop.target.elts[0], ast.Name) and loop.target.elts[0].id == idx \
+                    and (len(loop.iter.args) == 1 and not loop.iter.keywords):
+                lst = normalise(ctx, f, loop.iter.args[0])
+            elif loop is not None and isinstance(loop.iter, ast.Call) and call_name(loop.iter) == "range" and len(loop.iter.args) == 1 \
+                    and isinstance(loop.target, ast.Name):
+                r = normalise(ctx, f, loop.iter.args[0])
+                if isinstance(r, ast.Call) and call_name(r) == "len" and r.args:
+                    lst = r.args[0]
+            if lst is None:
+                ctx.violation(rid, f0, anchor, f"per-node value is indexed by `{idx}`, which is not the position counter (enumerate / range(len(..))) "
+                                               f"of the resolved node list", label=label)
                 continue
-            listname = loop.iter.args[0].id
-            # the size test compares with len(listname) (possibly through a local n_nodes = len(listname))
-            sizes = [c for c in ast.walk(e.test) if isinstance(c, ast.Compare)]
+            lst_key = ast.unparse(lst)
             ok_size = False
-            for c in sizes:
+            for c in ast.walk(test):
+                if not isinstance(c, ast.Compare) or len(c.ops) != 1 or not isinstance(c.ops[0], ast.Eq if not neg else ast.NotEq):
+                    continue
                 for side in [c.left] + list(c.comparators):
-                    s = side
-                    if isinstance(s, ast.Name):
-                        from engine.util import single_def_value
-                        v = single_def_value(ctx, f, s)
-                        if v is not None:
-                            s = v
-                    if isinstance(s, ast.Call) and call_name(s) == "len" and s.args and isinstance(s.args[0], ast.Name) and s.args[0].id == listname:
+                    sv = normalise(ctx, f, side)
+                    if isinstance(sv, ast.Call) and call_name(sv) == "len" and sv.args and ast.unparse(sv.args[0]) == lst_key:
                         ok_size = True
             if ok_size:
-                ctx.ok(rid, f, e, f"value array indexed by the enumerate counter of `{listname}`, size compared with len({listname})",
-                       {"loop": norm(loop)})
+                ctx.ok(rid, f0, anchor, f"value array indexed by the position counter of `{ast.unparse(lst)[:40]}`, size compared with its length",
+                       {"loop": norm(loop), "inlined_helpers": list(f.inlined_helpers)[:6]}, label=label)
             else:
-                ctx.violation(rid, f, e, f"the array-size test does not compare with len({listname}), the list the values are distributed over",
-                              {"loop": norm(loop), "test": ast.unparse(e.test)})
+                ctx.violation(rid, f0, anchor, f"the array-size test does not compare with the length of the list the values are distributed over",
+                              {"loop": norm(loop), "test": ast.unparse(test)[:160]}, label=label)
     if n < 2:
         raise AnalysisError(f"{rid}: per-node value distribution idiom found {n} times (2 on the pinned tree)")
 
